@@ -83,7 +83,9 @@ func Cleanup() {
 // NewDir returns a fresh empty directory under the scratch root.
 func NewDir(prefix string) string {
 	n := atomic.AddInt64(&scratchSeq, 1)
-	d := filepath.Join(ScratchRoot(), fmt.Sprintf("%s%d", prefix, n))
+	// five guard levels: a server under test that climbs out of its directory (a seeded change, or a defect)
+	// stays within this process's own scratch space for as many dot-dot steps as the alphabets can produce
+	d := filepath.Join(ScratchRoot(), "g", "u", "a", "r", "d", fmt.Sprintf("%s%d", prefix, n))
 	if err := os.MkdirAll(d, 0o755); err != nil {
 		panic(err)
 	}
